@@ -462,3 +462,30 @@ PROPS["C18"] = dict(
         dict(name="nativefuzz", pkg="c18", fuzz="FuzzClientBytes", run="FuzzClientBytes", fuzztime=dict(thorough=150), tiers=("thorough",)),
     ],
 )
+
+PROPS["C15"] = dict(
+    level="fault_enumeration",
+    manifest=dict(
+        text=("The consuming side runs in a real child process (the test binary re-executed) that opens the real message log, runs the real "
+              "SchedulePublishes on it and appends messages concurrently; it is killed with SIGKILL - from inside, as the first or the last thing "
+              "that happens around the hand-over of offset k (the latter is, for the offset file, the same as dying between the callback's return "
+              "and the offset write), or by the parent a generated delay after the appends are done - or stopped gracefully when idle, over 1-5 "
+              "rounds on the same data directory, with logs sized to straddle batch (10), segment (500) and truncation (1500/2000) boundaries. "
+              "For logs of up to 12 (thorough 30) messages the kill point is enumerated over EVERY offset, entering and leaving. Oracle on the "
+              "child's unbuffered event log: offsets handed consecutively within an incarnation with the payload that was appended there; the "
+              "first offset ever handed is 0; a restart resumes no later than the first offset not completely handed and no earlier than the "
+              "last completed one (minus one for parent-timed kills); after a final idle incarnation every appended offset has been handed."),
+        note=("Trusted: Go toolchain, rapid, the child harness in harness/c15 (its log wrapper records E/X lines with one write(2) each; self-kills "
+              "take the mutex the appender holds around Append, so no append is ever cut short). Power-loss durability (page cache) is outside the statement."),
+        technique="crash-point enumeration (exhaustive for small logs) + property-based generation of crash/restart rounds with real SIGKILL",
+    ),
+    rule=("a case = list of rounds (messages to append, crash point). Non-trivial = a crash point strictly inside the log, or a log longer than 1500. "
+          "Distinct = distinct case. Counter child_processes = real child processes started."),
+    assumptions=["resume is inclusive by design (the offset file stores the last completed offset): replaying that one message again is allowed",
+                 "a killed incarnation may have appended fewer messages than asked; the harness counts the appends the child recorded"],
+    runs=[
+        dict(name="regress", pkg="c15", run="TestRegress", timeout=300),
+        dict(name="enum", pkg="c15", run="TestEnumSmall", shards=dict(quick=8, thorough=16), timeout=dict(quick=400, thorough=2400)),
+        dict(name="random", pkg="c15", run="TestRandom", checks=dict(quick=160, thorough=3000), shards=16, timeout=dict(quick=400, thorough=2400), shrinktime="60s"),
+    ],
+)
